@@ -267,13 +267,18 @@ def rule_adder(ctx):
     rets = [n for n in walk_local(f.node) if isinstance(n, ast.Return)
             and isinstance(n.value, ast.Tuple) and len(n.value.elts) == 2]
     C.require(rets, "tuple return of add_maybe_exponent_stripped not found")
-    rt = rets[-1]
     la = ctx.r.local_assignments(f)
+
+    def _is_max_exp(rt_):
+        e_ = rt_.value.elts[1]
+        ed = la.get(e_.id, [e_]) if isinstance(e_, ast.Name) else [e_]
+        return any(isinstance(v, ast.Call) and dotted(v.func) == "max" and len(v.args) == 2 for v in ed), ed
+    # every stripped return carries the common exponent; report on the first that does not (source order)
+    rets.sort(key=lambda n: (n.lineno, n.col_offset))
+    rt = next((x for x in rets if not _is_max_exp(x)[0]), rets[-1])
     e = rt.value.elts[1]
-    edef = la.get(e.id, [e]) if isinstance(e, ast.Name) else [e]
+    is_max, edef = _is_max_exp(rt)
     key = ctx.key(f, "C19-ADDER", "common-exponent")
-    is_max = any(isinstance(v, ast.Call) and dotted(v.func) == "max" and len(v.args) == 2
-                 for v in edef)
     if is_max:
         r.ok(key, C.loc(f, rt), "result exponent = max of both exponents")
     else:
